@@ -185,10 +185,19 @@ def cextIoprioGet (shift : Nat) (k : Kernel) (pid : Nat) : Except NErr (Nat × N
   | .error e => .error (.os e)
   | .ok v => .ok (ioprioUnpack shift v)
 
-/-- `psutil_proc_ioprio_set`: two `"i"` conversions, `(class << SHIFT) | data` in C `int`
+/-- an optional argument check in `psutil_proc_ioprio_set` before the packing:
+    `if (ioclass < a || ioclass > b || iodata < c || iodata > d)` → ValueError -/
+def outOfNativeRange (range : Option (Int × Int × Int × Int)) (cls data : Int) : Bool :=
+  match range with
+  | none => false
+  | some (a, b, c, d) => decide (cls < a ∨ cls > b ∨ data < c ∨ data > d)
+
+/-- `psutil_proc_ioprio_set`: two `"i"` conversions, (the optional range check,) `(class << SHIFT) | data` in C `int`
     arithmetic (defined only while the result stays a non-negative `int`), the syscall -/
-def cextIoprioSet (shift : Nat) (k : Kernel) (pid : Nat) (cls data : Int) : Except NErr Kernel :=
+def cextIoprioSet (shift : Nat) (range : Option (Int × Int × Int × Int)) (k : Kernel) (pid : Nat)
+    (cls data : Int) : Except NErr Kernel :=
   if !(fitsCInt cls && fitsCInt data) then .error .overflowError
+  else if outOfNativeRange range cls data then .error .valueError
   else if cls < 0 ∨ data < 0 then .error .undefinedC
   else
     let v := ioprioPack shift cls.toNat data.toNat
@@ -259,6 +268,9 @@ structure Cfg where
   /-- the three `IOPRIO_PRIO_*` macros have the canonical shape
       (`mask >> SHIFT`, `mask & ((1UL << SHIFT) - 1)`, `(class << SHIFT) | data`) -/
   macrosCanonical : Bool
+  /-- bounds `(a, b, c, d)` of a range check on (ioclass, iodata) in `psutil_proc_ioprio_set`
+      before the packing, if there is one -/
+  nativeRange : Option (Int × Int × Int × Int)
   /-- `if value is None: value = defaultLevel` in `ionice_set` -/
   defaultLevel : Int
   /-- `value < levelMin or value > levelMax` in `ionice_set` -/
@@ -334,7 +346,7 @@ def ioniceSet (c : Cfg) (k : Kernel) (pid : Nat) (ioclass : Int) (value : Option
   let value := value.getD c.defaultLevel
   if value ≠ 0 ∧ c.noValueClasses.contains ioclass then (.exc .valueError, k)
   else if value < c.levelMin ∨ value > c.levelMax then (.exc .valueError, k)
-  else match cextIoprioSet c.shift k pid ioclass value with
+  else match cextIoprioSet c.shift c.nativeRange k pid ioclass value with
     | .ok k' => (.ok .none, k')
     | .error e => (.exc (wrapExc pid e), k)
 
